@@ -629,7 +629,12 @@ class Builder:
             o1 = self.lin(o, fout=rng.randint(1, 4))
             o2 = self.lin(o, fout=rng.randint(1, 4))
             self.features.add('cat-head')
-            return self.cat([o1, o2], dim=1)
+            t = self.cat([o1, o2], dim=1)
+            # ... possibly nested: cat(cat(cat(o1, o2), o3), o4)
+            for _ in range(rng.choice([0, 0, 1, 2])):
+                t = self.cat([t, self.lin(o, fout=rng.randint(1, 3))], dim=1)
+                self.features.add('nested-cat-head')
+            return t
         o = self.lin(o, fout=rng.randint(1, 6))
         return o
 
